@@ -40,7 +40,8 @@ type BoundedSpec struct {
 }
 
 type LocksetSpec struct {
-	Pkg string `json:"pkg"`
+	Pkg      string `json:"pkg"`
+	RaceTest string `json:"race_test,omitempty"` // in-package test run with -race when a lockset obligation of the package fails
 }
 
 type StructSpec struct {
@@ -133,6 +134,7 @@ type checkRun struct {
 	distinct   int
 	notes      []string
 	downgraded []string
+	raceOut    map[string]string
 }
 
 func baseName(n string) string {
@@ -433,6 +435,10 @@ func (run *checkRun) writeReplay(name string, rec map[string]interface{}) string
 
 // failObligation: model -> replay on the real code -> bounded search -> report.
 func (run *checkRun) failObligation(o *Obligation, r SolveResult) {
+	if strings.Contains(o.Name, "/lockset#") {
+		run.failLockset(o, r)
+		return
+	}
 	fc := run.funcClaim(o)
 	rec := map[string]interface{}{"obligation": o.Name, "clause": o.Text, "position": o.Pos.String(), "solver": r.Solver, "solver_status": r.Status,
 		"solver_output": trunc(r.Output, 2000), "smt2": r.File, "confirmed": false}
@@ -476,6 +482,42 @@ func (run *checkRun) failObligation(o *Obligation, r SolveResult) {
 	run.violation(path, "obligation="+o.Name+" no-failing-input-found")
 }
 
+// failLockset: a lockset obligation failed; the package's race test (run with the race detector) is the replay.
+func (run *checkRun) failLockset(o *Obligation, r SolveResult) {
+	rec := map[string]interface{}{"obligation": o.Name, "clause": o.Text, "position": o.Pos.String(), "back_end": "dataflow (must-hold lockset over go/ssa)", "confirmed": false}
+	pkgBase := strings.SplitN(o.Name, ".", 2)[0]
+	for _, ls := range run.cfg.Locksets {
+		if filepath.Base(ls.Pkg) != pkgBase || ls.RaceTest == "" {
+			continue
+		}
+		if run.raceOut == nil {
+			run.raceOut = map[string]string{}
+		}
+		out, done := run.raceOut[ls.Pkg]
+		if !done {
+			out, _, _ = run.goTestFlags(ls.Pkg, ls.RaceTest, "", 0, []string{"-race"})
+			run.raceOut[ls.Pkg] = out
+		}
+		rec["replay_test"] = ls.RaceTest + " (go test -race)"
+		rec["replay_output"] = tail(out, 4000)
+		rec["replay_cmd"] = run.goTestCmd(ls.Pkg, ls.RaceTest, "") + " -race"
+		// the race report must name the function whose access is unguarded
+		fn := o.Func[strings.Index(o.Func, ".")+1:]
+		short := fn
+		if i := strings.LastIndex(short, "."); i >= 0 {
+			short = short[i+1:]
+		}
+		if (strings.Contains(out, "DATA RACE") || strings.Contains(out, "concurrent map")) && strings.Contains(out, short) {
+			rec["confirmed"] = true
+			path := run.writeReplay(o.Name, rec)
+			run.violation(path, "obligation="+o.Name)
+			return
+		}
+	}
+	path := run.writeReplay(o.Name, rec)
+	run.violation(path, "obligation="+o.Name+" no-failing-input-found")
+}
+
 func tail(s string, n int) string {
 	if len(s) > n {
 		return "..." + s[len(s)-n:]
@@ -509,6 +551,10 @@ func (run *checkRun) goTestCmd(pkg, test, input string) string {
 // goTest runs one in-package test with the oracle files overlaid. It returns the output, the first failing input (JSON) if the
 // test printed one, and whether a replay was confirmed.
 func (run *checkRun) goTest(pkg, test, input string, timeout time.Duration) (string, string, bool) {
+	return run.goTestFlags(pkg, test, input, timeout, nil)
+}
+
+func (run *checkRun) goTestFlags(pkg, test, input string, timeout time.Duration, flags []string) (string, string, bool) {
 	ov, err := run.overlayFor(pkg)
 	if err != nil {
 		return "no oracle directory for " + pkg + ": " + err.Error(), "", false
@@ -519,7 +565,9 @@ func (run *checkRun) goTest(pkg, test, input string, timeout time.Duration) (str
 			timeout = 1500 * time.Second
 		}
 	}
-	cmd := exec.Command("go", "test", "-tags", "verif", "-overlay", ov, "-vet=off", "-count=1", "-timeout", fmt.Sprintf("%ds", int(timeout.Seconds())), "-run", "^"+test+"$", "-v", "./"+pkg+"/")
+	argv := append([]string{"test", "-tags", "verif", "-overlay", ov, "-vet=off", "-count=1", "-timeout", fmt.Sprintf("%ds", int(timeout.Seconds())), "-run", "^" + test + "$", "-v"}, flags...)
+	argv = append(argv, "./"+pkg+"/")
+	cmd := exec.Command("go", argv...)
 	cmd.Dir = repoRoot
 	cmd.Env = append(os.Environ(), "GOFLAGS=-mod=mod", "GOPROXY=off", "GOSUMDB=off", "GOTOOLCHAIN=local", "VERIF_INPUT="+input, "VERIF_TIER="+run.tier, fmt.Sprintf("VERIF_SEED=%d", run.seed))
 	outB, _ := cmd.CombinedOutput()
